@@ -101,6 +101,9 @@ def unit(name, functions, loops, clauses, body, kf=(), extra_inject=(), extra=No
         'inject': [e for l in loops for e in INJ[l]] + list(extra_inject),
         'clauses': clauses,
         'witness': {'unwind': 7},
+        # the ghost statements only take snapshots for the loop invariants (spec/c02_vec_inv.h) or state proof clauses inside the
+        # code; no harness assertion reads them, so the bounded fallback may drop those whose anchors are gone
+        'fallback': 'ghost-free',
         'trusted': COMMON_TRUSTED + list(trusted),
         'assumptions': COMMON_ASSUME + list(assumptions),
     }
